@@ -578,8 +578,11 @@ Ev(e, env, st) ==
          ELSE IF e.op = "$||" THEN BoolRed(r.v, TRUE, r.st)
          ELSE
            LET p == PullAll(r.v, <<>>, r.st)
-               zero == CASE e.op = "$+" -> (CASE e.ek = "int" -> IntV(0) [] e.ek = "float" -> FloatV(0) [] OTHER -> StrV(<<>>))
-                         [] e.op = "$*" -> (IF e.ek = "int" THEN IntV(1) ELSE FloatV(2))
+               \* ek = "dyn": the static type of the iterator is a union of iterator types; the neutral element is
+               \* that of the elements actually delivered (only used with non-empty sequences)
+               ek == IF e.ek = "dyn" THEN (IF IsOk(p) /\ Len(p.v) > 0 /\ p.v[1].k \in {"int", "float", "string"} THEN p.v[1].k ELSE "int") ELSE e.ek
+               zero == CASE e.op = "$+" -> (CASE ek = "int" -> IntV(0) [] ek = "float" -> FloatV(0) [] OTHER -> StrV(<<>>))
+                         [] e.op = "$*" -> (IF ek = "int" THEN IntV(1) ELSE FloatV(2))
                          [] e.op = "$&" -> IntV(-1)
                          [] e.op = "$|" -> IntV(0)
                bop == CASE e.op = "$+" -> "+" [] e.op = "$*" -> "*" [] e.op = "$&" -> "&" [] e.op = "$|" -> "|"
